@@ -245,7 +245,7 @@ def Qd(cls, **kw):
 
 WQD = [Qd("quantized_bits", bits=4, integer=0, symmetric=1, alpha=1.0),
        Qd("quantized_bits", bits=4, integer=0, symmetric=1, alpha="auto_po2", scale_axis=0),
-       Qd("quantized_bits", bits=6, integer=2, alpha="auto"),
+       Qd("quantized_bits", bits=6, integer=2, alpha="auto"), Qd("quantized_bits", bits=5, integer=1, alpha="auto", scale_axis=0),
        Qd("quantized_bits", bits=5, integer=1, symmetric=1, alpha="auto_po2", min_po2_exponent=-3, max_po2_exponent=-1),
        Qd("quantized_bits", bits=4, integer=0, symmetric=1, qnoise_factor=0.5),
        Qd("quantized_bits", bits=3, integer=1, symmetric=0, keep_negative=False, alpha=1.0),
